@@ -9,7 +9,7 @@ GLOBAL_ASSUMPTIONS = [
     'no unsafe code is in any function under contract',
 ]
 
-LEXER_BOUNDED = ('sub-lexers: lex_spaces / lex_tabs / lex_newlines (desugaring R7), lex_hostname (R10), lex_email_address (R11), lex_hostname_token, lex_url, lex_hostport (R19), validate_scheme and 13 URL scanner functions are PROVED (units lexing, url), lex_hex_number (R20; unit hex_number: consumes exactly `0x` + the hexadecimal digits up to a non-alphanumeric character, radix 16; numeric value not specified); '
+LEXER_BOUNDED = ('sub-lexers: lex_spaces / lex_tabs / lex_newlines (desugaring R7), lex_hostname (R10), lex_email_address (R11), lex_hostname_token, lex_url, lex_hostport (R19), validate_scheme and 13 URL scanner functions are PROVED (units lexing, url), lex_hex_number (R20; unit hex_number: a hit covers `0x` + hexadecimal digits only, 1 <= next_index <= |source|, radix 16; numeric value and where the literal stops (lexer policy) not specified); '
                  'still ASSUMED in Verus: found_ok for lex_number (String / str::parse::<f64>; CBMC: time-out even at length 2 - only the bounded runtime check rac:lexers exercises it), '
                  'validate_local_part (arbitrary total bool: termination / panic-freedom by rac:lexers only)')
 
